@@ -65,19 +65,19 @@ CHECKS = {
         "exploration",
         "runtime monitoring: reference well-formedness predicate (written twice) vs verify() on a bounded-exhaustive small scope + random trees + permutations; dispatch probes through the public register API",
         "verify() agreed with the specification in both directions on every enumerated / generated tree and check set, under permutations; recording checks saw every node exactly once.",
-        "exhaustive only within the stated small-scope bounds; ambiguous trees (CAN binding without id, non-CAN struct > 64 bits) are not judged",
+        "exhaustive only within the stated small-scope bounds; trees edited in place are judged against identical fresh trees; ambiguous trees (CAN binding without id, non-CAN struct > 64 bits) are not judged",
         "DESIGN.md 3/C09",
     ),
     "C10": (
         "fault_enumeration",
         "runtime monitoring with fault injection: every rejection source x generator x directory state; sys.addaudithook file-system event log + content-hash snapshots",
         "every enumerated rejection returned Err and produced no file-system mutation; every accepted run wrote exactly the files the plug-in returned.",
-        "faults enumerated: each general rule, each plug-in rule, a synthetic rejecting check in each of the 8 categories (first / last / one of a same-named pair / registered late / failing through Nothing()), histories on one long-lived manager, a probe plug-in of the harness",
+        "faults enumerated: each general rule, each plug-in rule, a synthetic rejecting check in each of the 8 categories (first / last / one of a same-named pair / registered late / failing through Nothing() / rejecting through an escaping .attempt()), histories on one long-lived manager, a probe plug-in of the harness; the output directory is spelled absolute, relative, through .., through a symbolic link, with a trailing slash",
         "DESIGN.md 3/C10",
     ),
     "C11": (
         "exploration",
-        "runtime monitoring: exception-escape / render / citation monitors over prefixes, token mutants, out-of-domain literals, random text, deep nesting, faulty modules; CPU-time alarm",
+        "runtime monitoring: exception-escape / render / citation monitors over prefixes, token mutants, out-of-domain literals, random text (lone surrogates included), deep nesting, faulty modules; CPU-time alarm in process, and a kernel CPU limit (RLIMIT_CPU) around child processes for inputs whose cost can sit inside one C-level call",
         "no exception escaped, every Err rendered, every cited .fcp line existed, on every generated input.",
         "nesting to 5000 levels plus a frame-by-frame sweep of the stack headroom; any BaseException other than KeyboardInterrupt counts as an escape; errors are also rendered twice, with colours forced on and without a terminal-like stdout",
         "DESIGN.md 3/C11",
@@ -107,7 +107,7 @@ CHECKS = {
         "exploration",
         "runtime monitoring: split-vs-single-file tree comparator over random module trees + fault injection into modules with error-shape/citation monitors",
         "every split schema had the same declarations as the single-file schema; every injected module fault was returned as Err naming the module / missing file.",
-        "modules are dependency-closed; per-kind multiset comparison (ordered equality recorded)",
+        "modules are dependency-closed; per-kind multiset comparison (ordered equality recorded); missing modules are also missing while decoy files sit in every place a lookup could fall back to",
         "DESIGN.md 3/C20",
     ),
     "C03": (
@@ -149,7 +149,7 @@ CHECKS = {
         "exploration",
         "compiler sanitizers + runtime monitoring: send-callback event log of forked scheduler histories checked against a reference automaton (bounded-exhaustive histories + random)",
         "on every history the generated scheduler sent exactly the frames the reference automaton sends, with the encoding of the current values.",
-        "histories judged only when wrapping and true-time elapsed readings coincide",
+        "histories judged only when wrapping and true-time elapsed readings coincide; a frame whose id member is narrower than a declared identifier is matched by its low bits; on two calls out of three only the last member of a message changes",
         "DESIGN.md 3/C19",
     ),
 }
